@@ -18,7 +18,9 @@ def shapes(thorough, rnd):
     out = []
     for n, f in enumerate(["asyncio", "trio"] * (2 if thorough else 1)):
         other = "trio" if f == "asyncio" else "asyncio"
-        payloads = {"c1": {"flavour": f}, "c2": {"flavour": f, "cleanup": 1}, "o1": {"flavour": other}, "h1": {"flavour": "threading"}, "x1p": {"flavour": f}}
+        # (c2 and o1 are plain callables that work a little when CALLED and return their coroutine:
+        #  they are adopted from threads and from payloads of the other flavour)
+        payloads = {"c1": {"flavour": f}, "c2": {"flavour": f, "cleanup": 1, "plaincall": True}, "o1": {"flavour": other, "plaincall": True}, "h1": {"flavour": "threading"}, "x1p": {"flavour": f}}
         services = {"s1": {"flavour": f}}
         proto = [{"op": "adopt", "p": "c1"}, {"op": "adopt", "p": "h1"}, {"op": "accept"}, {"op": "execute", "p": "x1p", "how": "none"}]
         ctx = {"c2": ["thread", "payload:h1", "payload:o1", "payload:c1"], "o1": ["thread", "payload:c1"]}
@@ -79,6 +81,14 @@ def run(ctx):
                       "script": [{"op": "adopt", "p": "c1"}, {"op": "adopt", "p": "t1"}, {"op": "accept"}, {"op": "wait_running"}, {"op": "wait_start", "p": "c1"}, {"op": "wait_start", "p": "t1"},
                                  {"op": "execute", "p": "x1p", "how": "val:x", "slow": 1.6, "wait": False}, {"op": "adopt", "p": "late", "ctx": "payload:c1"}, {"op": "adopt", "p": "late2", "ctx": "payload:t1"},
                                  {"op": "step", "p": "c1"}, {"op": "step", "p": "t1"}, {"op": "sleep", "ms": 1500}, {"op": "polls", "n": 2}], "shape": "targeted-slow-execute"})
+    # a blocking execute() of a coroutine payload from inside a payload of the SAME flavour is
+    # refused (the loop thread would wait for itself) - it must not be served by a second loop
+    # (trio refuses; the same request inside asyncio blocks the loop on itself for ever - that is
+    #  the documented "execute is blocking" and is not generated, DESIGN 7.5)
+    for f in ("trio",):
+        extra.append({"seed": ctx.seed, "jitter": 0.0, "payloads": {"c1": {"flavour": f}, "c2": {"flavour": f}, "xs": {"flavour": f, "args": [1], "kwargs": {}}},
+                      "script": [{"op": "adopt", "p": "c1"}, {"op": "adopt", "p": "c2"}, {"op": "accept"}, {"op": "wait_running"}, {"op": "wait_start", "p": "c1"}, {"op": "wait_start", "p": "c2"},
+                                 {"op": "execute", "p": "xs", "ctx": "payload:c1", "how": "val:x"}, {"op": "seg", "p": "c2", "hold": 0.002}, {"op": "step", "p": "c1"}, {"op": "polls", "n": 2}], "shape": "targeted-same-flavour-execute-refused"})
     # accept() of further runtimes is refused while this one runs - twice in a row - and the
     # services created afterwards all live in THIS runtime's loops (a second live runtime would
     # take some of them into its own loops and threads)
